@@ -182,8 +182,17 @@ func runC17(rc *RunCtx) {
 	defer c.Close()
 	s := &SW{rc: rc, c: c}
 	paths := map[string]bool{}
+	jumped := false
 	step := func() bool {
-		ro, err := s.StepBlock(6 * time.Second)
+		dt := 6 * time.Second
+		if !jumped && rc.Chance(0.02) {
+			// once per history, time leaps past the end of every storage plan (plans run 90 days): files, provers and
+			// proofs stay, their owners' plans have lapsed
+			dt = 100 * 24 * time.Hour
+			jumped = true
+			paths["plans-lapsed"] = true
+		}
+		ro, err := s.StepBlock(dt)
 		if err != nil {
 			if _, ok := err.(*chain.PanicError); ok {
 				rc.Abort("BeginBlock panic (C05 territory): " + err.Error())
